@@ -976,6 +976,8 @@ class Check(common.Check):
             found = sending_methods(common.REPO)
         except (OSError, SyntaxError) as e:
             return [{'what': f'cannot read client sources: {e}', 'signature': 'c17:sources', 'case': None}]
+        self.notes.append('sending methods outside the model (listed, not claimed): ' +
+                          '; '.join(f'{f}: {", ".join(sorted(v))}' for f, v in UNMODELLED.items() if v))
         for f, names in found.items():
             unknown = names - set(MODELLED[f]) - UNMODELLED[f]
             gone = (set(MODELLED[f])) - names
